@@ -147,7 +147,6 @@ class LogFormatter(logging.Formatter):
         Returns:
             str: The sanitized and optionally colorized log record.
         """
-        record = self.color_code(record)
         parts = record.split("|")
 
         # The message is the last field of the record, but a JSON message can itself
@@ -164,7 +163,9 @@ class LogFormatter(logging.Formatter):
                 continue
             if isinstance(candidate, dict):
                 dirty_record = candidate
-                parts = parts[:index]
+                # the level colour codes belong to the fields in front of the message;
+                # inside the message they would be control characters in the JSON text
+                parts = self.color_code("|".join(parts[:index])).split("|") if index else []
                 break
 
         if dirty_record is not None:
@@ -172,6 +173,7 @@ class LogFormatter(logging.Formatter):
             parts.append(" " + json.dumps(clean_record))
 
         else:
+            parts = self.color_code(record).split("|")
             json_part = parts.pop()
             json_part = re.sub(r"`([^`]*)`", r"`\001YELLOWm\1\001OFFm`", f"{json_part}")
             json_part = re.sub(r"'([^']*)'", r"'\001YELLOWm\1\001OFFm'", f"{json_part}")
